@@ -204,8 +204,9 @@ func NewCluster(
 	c.wg.Add(1)
 	go func() {
 		defer c.wg.Done()
-		c.ready(ReadyTimeout)
-		c.run()
+		if c.ready(ReadyTimeout) {
+			c.run()
+		}
 	}()
 
 	return c, nil
@@ -603,7 +604,10 @@ func (c *Cluster) run() {
 	}()
 }
 
-func (c *Cluster) ready(timeout time.Duration) {
+// ready waits for the consensus component and returns true when the peer is
+// ready. Shutdown() waits for the goroutine that runs ready(), so when things
+// go wrong the shutdown is started from a new goroutine and false is returned.
+func (c *Cluster) ready(timeout time.Duration) bool {
 	ctx, span := trace.StartSpan(c.ctx, "cluster/ready")
 	defer span.End()
 
@@ -628,15 +632,15 @@ This might be due to one or several causes:
     same version of IPFS-cluster.
 **************************************************
 `)
-		c.Shutdown(ctx)
-		return
+		go c.Shutdown(ctx)
+		return false
 	case <-c.consensus.Ready(ctx):
 		// Consensus ready means the state is up to date. Every item
 		// in the state that is not pinned will appear as PinError so
 		// we can proceed to recover all of those in the tracker.
 		c.RecoverAllLocal(ctx)
 	case <-c.ctx.Done():
-		return
+		return false
 	}
 
 	// Cluster is ready.
@@ -644,8 +648,8 @@ This might be due to one or several causes:
 	peers, err := c.consensus.Peers(ctx)
 	if err != nil {
 		logger.Error(err)
-		c.Shutdown(ctx)
-		return
+		go c.Shutdown(ctx)
+		return false
 	}
 
 	logger.Info("Cluster Peers (without including ourselves):")
@@ -664,6 +668,7 @@ This might be due to one or several causes:
 	c.readyB = true
 	c.shutdownLock.Unlock()
 	logger.Info("** IPFS Cluster is READY **")
+	return true
 }
 
 // Ready returns a channel which signals when this peer is
